@@ -152,7 +152,7 @@ def bingham_trainer_bounded_instance(prop):
     from pb_bss.distribution import complex_bingham as m
 
     def make(B):
-        return {'D': B.choose('D', [2, 3, 4]), 'mc': B.choose('mc', [np.inf, 20.0, 100.0, 3.0]), 'kind': B.choose('kind', ['flat', 'peaky', 'peaky', 'collinear', 'duplicated', 'exactly-collinear', 'too-few', 'zero']),
+        return {'D': B.choose('D', [2, 3, 4, 5, 6]), 'mc': B.choose('mc', [np.inf, 20.0, 100.0, 3.0]), 'kind': B.choose('kind', ['flat', 'peaky', 'peaky', 'collinear', 'duplicated', 'exactly-collinear', 'too-few', 'zero']),
                 'sal': B.choose('sal', [False, True]), 'lead': B.choose('lead', [(), (2,)]), 'seed': B.choose('seed', list(range(5000))),
                 'd': B.given('d', np.zeros(1))}
 
